@@ -377,6 +377,7 @@ def finish(mod, batch, rule, assumptions, components, extra_cov=None,
         'simulated_process_runs': batch.child_runs,
         'distinct_event_log_digests': len(batch.digests),
         'runs_per_hour': int(batch.child_runs / max(wall, 1e-6) * 3600),
+        'plans_per_hour': int(batch.evaluations / max(wall, 1e-6) * 3600),
         'simulated_seconds': round(batch.sim_seconds, 3),
         'faults_fired': dict(sorted(batch.fired.items())),
         'probes': dict(sorted(batch.probes.items())),
